@@ -338,11 +338,13 @@ def obligations(tier):
         for sx in sh:
             for sy in sh:
                 n = nleaves(sx) + nleaves(sy)
-                if n > (4 if q else 5):
+                if n > 5:
                     continue
                 for lf in ((1,) if q or n > 4 else (1, 2)):
                     if n <= 2:
                         fulls = [None]
+                    elif n == 5 and q:
+                        fulls = [[]]            # five leaves in the quick tier: every leaf over the plain alphabet (no focus leaf)
                     elif lang == 'en':
                         fulls = [None] if n <= 3 else ([[]] if q else [[i] for i in range(n)])
                     else:
